@@ -437,3 +437,15 @@ func sameGeneric(a, b types.Type) bool {
 	nb, ok2 := types.Unalias(b).(*types.Named)
 	return ok1 && ok2 && na.Origin() == nb.Origin()
 }
+
+// bitApp builds (bit t i), distributing over a top-level ite of t so that the bit axioms'
+// triggers (bit (bitor a b) i) etc. match syntactically.
+func bitApp(t, i string) string {
+	if strings.HasPrefix(t, "(ite ") && strings.HasSuffix(t, ")") {
+		args := splitArgs(t[5 : len(t)-1])
+		if len(args) == 3 {
+			return sIte(args[0], bitApp(args[1], i), bitApp(args[2], i))
+		}
+	}
+	return app("bit", t, i)
+}
